@@ -407,6 +407,7 @@ func runC32(c *Ctx) {
 	if fn == nil {
 		return
 	}
+	runC32Counting(c)
 	// the collection loop's receives (in the function itself, not in the drain goroutine)
 	n := 0
 	Instrs(fn, func(in ssa.Instruction) {
